@@ -1,4 +1,5 @@
 import GB.C07.Proofs
+import GB.C07.Glue
 import GB.Generated.Facts
 /-
   C07 — property theorems.  The model (GB/C07/Model.lean) is grpcadapter/metadata.go,
@@ -361,6 +362,83 @@ theorem C07_examples :
       = [(ascii "x-a", [ascii "1", ascii "2"])] := by
   decide
 
+/-! ### construction glue: which forwarder a component ends up with -/
+
+theorem C07_construct_spec (idx : Nat) (c : Ctor) : construct idx c = specFwd idx c := by
+  unfold construct specFwd
+  cases applyOpts c.opts <;> rfl
+
+/-- **Components are isolated**, over ALL sequences of constructor calls in one process: the `i`-th
+    component built holds exactly the forwarder it was given (the last `WithForwarder`), else a fresh default
+    created by its own constructor call — a function of its OWN call only. -/
+theorem C07_components_isolated (seq : List Ctor) (i : Nat) (c : Ctor) (h : seq[i]? = some c) :
+    (build seq)[i]? = some (specFwd i c) := by
+  have gen : ∀ (l : List Ctor) (n i : Nat) (c : Ctor), l[i]? = some c → (buildFrom n l)[i]? = some (specFwd (n + i) c) := by
+    intro l
+    induction l with
+    | nil => intro n i c h; simp at h
+    | cons x rest ih =>
+      intro n i c h
+      cases i with
+      | zero =>
+        simp only [List.getElem?_cons_zero, Option.some.injEq] at h
+        subst h
+        simp [buildFrom, C07_construct_spec]
+      | succ j =>
+        simp only [List.getElem?_cons_succ] at h
+        simp only [buildFrom, List.getElem?_cons_succ]
+        rw [ih (n + 1) j c h]
+        congr 2; omega
+  have := gen seq 0 i c h
+  simpa [build] using this
+
+/-- … hence no dependence on any other constructor call: two processes that agree on the `i`-th call agree
+    on the `i`-th component, whatever was built before or after it. -/
+theorem C07_components_independent (seq seq' : List Ctor) (i : Nat) (c : Ctor)
+    (h : seq[i]? = some c) (h' : seq'[i]? = some c) : (build seq)[i]? = (build seq')[i]? := by
+  rw [C07_components_isolated seq i c h, C07_components_isolated seq' i c h']
+
+/-- Options that do not concern the forwarder (`WithLogger`, `WithMarshalers`, …) do not change it. -/
+theorem C07_irrelevant_options (opts : List Opt) :
+    applyOpts (opts.filter (fun o => match o with | .withForwarder _ => true | _ => false)) = applyOpts opts := by
+  unfold applyOpts
+  have gen : ∀ (l : List Opt) (acc : Option Nat),
+      (l.filter (fun o => match o with | .withForwarder _ => true | _ => false)).foldl
+        (fun acc o => match o with | .withForwarder f => some f | _ => acc) acc =
+      l.foldl (fun acc o => match o with | .withForwarder f => some f | _ => acc) acc := by
+    intro l
+    induction l with
+    | nil => intro acc; rfl
+    | cons o rest ih => intro acc; cases o <;> simp [List.filter, ih]
+  exact gen opts none
+
+/-- **A component built with default options forwards nothing in either direction on any of its entry
+    points, whatever else the process constructs, in whatever order, with whatever forwarders.** -/
+theorem C07_default_component_denies (seq : List Ctor) (i : Nat) (c : Ctor) (cfg : Nat → Opts)
+    (h : seq[i]? = some c) (hd : applyOpts c.opts = none) :
+    ∃ f, (build seq)[i]? = some f ∧
+      ∀ (en : Entry) (r : Request) (streaming : Bool) (s : Script) (hdr trl : MD),
+        targetMD en (optsOf cfg f) r = [] ∧ clientVisible en (optsOf cfg f) streaming s hdr trl = ([], []) := by
+  refine ⟨specFwd i c, C07_components_isolated seq i c h, ?_⟩
+  intro en r streaming s hdr trl
+  have : optsOf cfg (specFwd i c) = {} := by unfold specFwd; rw [hd]; rfl
+  rw [this]
+  exact C07_default_deny en {} r streaming s hdr trl rfl rfl rfl
+
+/-- Seeded variant C07-m5 (process-wide default seeded by the first constructor call), kernel-checked
+    negative witness: `[NewGRPCProxy(WithForwarder(wide)), NewWebBridge()]` — the default-options bridge holds
+    the proxy's forwarder and forwards the `X-W` header to the target; the real construction gives it a fresh
+    deny-all forwarder and nothing crosses. -/
+theorem C07_shared_default_fails :
+    let seq : List Ctor := [{ kind := .proxy, opts := [.withForwarder 0] }, { kind := .bridge }]
+    let cfg : Nat → Opts := fun _ => { allowReq := [[120,45,119]] }
+    let r : Request := { hdr := [([88,45,87], [[49]])] }
+    buildShared seq = [.given 0, .given 0] ∧ build seq = [.given 0, .fresh 1] ∧
+    targetMD .http (optsOf cfg ((buildShared seq).getD 1 (.fresh 1))) r = [([120,45,119], [[49]])] ∧
+    targetMD .http (optsOf cfg ((build seq).getD 1 (.fresh 1))) r = [] ∧
+    buildShared [{ kind := .bridge }, { kind := .proxy, opts := [.withForwarder 0] }] = [.fresh 0, .given 0] := by
+  decide
+
 /-! Facts ties (regenerated from the sources on every run). -/
 
 theorem C07_facts_constants :
@@ -386,4 +464,14 @@ theorem C07_facts_call_sites :
       ["grpcadapter/forwarder.go:forwardOutgoingToIncoming", "grpcadapter/forwarder.go:forwardUnaryResponse", "proxy.go:SetHeader"]
     ∧ GB.Generated.c07SetTrailerSites =
       ["grpcadapter/forwarder.go:forwardOutgoingToIncoming", "grpcadapter/forwarder.go:forwardUnaryResponse", "proxy.go:SetTrailer"] := by
+  decide
+
+/-- Construction glue: the root package and `grpcadapter` hold NO package-level mutable state (no variable
+    besides blank compile-time assertions and error sentinels, no `sync.Once` / `sync.Pool`), and the
+    default forwarder is created by a `NewForwarder()` call inside each of the two constructors — so `build`
+    (a plain map over the constructor calls) is the shape of the code. -/
+theorem C07_facts_no_shared_defaults :
+    GB.Generated.c07MutablePackageVars = []
+    ∧ GB.Generated.c07SharedSyncTypes = []
+    ∧ GB.Generated.c07DefaultForwarderSites = ["bridge.go:NewWebBridge", "proxy.go:NewGRPCProxy"] := by
   decide
